@@ -3,7 +3,7 @@
     disagree with the model under each variant and on which the executable
     spec fails on the implementation's own observations. *)
 From Coq Require Import List ZArith NArith Bool.
-From DH Require Import Lib.CheckLib Model.Partition.
+From DH Require Import Lib.CheckLib Model.Partition Model.JsonValue.
 Import ListNotations.
 Open Scope Z_scope.
 
@@ -43,7 +43,10 @@ Record tcase := {
   (* copy mode (content-preserving transforms into a real DatasetSink, beside a plain copy job without transform):
      (sink entities = plain copy's entities, change-log length of the sink, of the plain copy's sink,
       changes added by a second run from scratch, changes added by a further full-sync run); None = not a copy case *)
-  o_copy : option (bool * Z * Z * Z * Z)
+  o_copy : option (bool * Z * Z * Z * Z);
+  (* value-normalisation case (entity.go toJsonValue called directly): a Go value, its image after a pass through JavaScript,
+     and what toJsonValue returned for each; None = not such a case *)
+  o_json : option (gval Fz * gval Fz * jval Fz * jval Fz)
 }.
 
 Definition out_code (r : run_out) : N := match r with ROk => 0 | RErr => 1 | RPanic => 2 end%N.
@@ -76,6 +79,9 @@ Definition agree_copy (c : tcase) (oc : N) (outs : list (list Z)) (cp : bool * Z
 
 Definition agree (m : part_mode) (c : tcase) : bool :=
   let '(oc, ins, outs, tok, rerun) := predict m c in
+  match o_json c with
+  | Some (v, v', o, o') => jval_eqb (to_json i2fz v) o && jval_eqb (to_json i2fz v') o'
+  | None =>
   match o_copy c with
   | Some cp => agree_copy c oc outs cp
   | None =>
@@ -84,7 +90,7 @@ Definition agree (m : part_mode) (c : tcase) : bool :=
   && zlistlist_eqb outs (o_sink c)
   && Z.eqb tok (o_token c)
   && Z.eqb rerun (o_rerun c)
-  end.
+  end end.
 
 (** exact chunk boundaries (reported as drift information only) *)
 Definition agree_chunks (m : part_mode) (c : tcase) : bool :=
@@ -94,6 +100,9 @@ Definition agree_chunks (m : part_mode) (c : tcase) : bool :=
 (** the executable spec S, evaluated on the implementation's observations only *)
 Definition spec_ok (c : tcase) : bool :=
   let src := zrange 0 (Z.to_nat (c_n c)) in
+  match o_json c with
+  | Some (_, _, o, o') => jval_eqb o o'      (* a JS-touched value compares equal to the stored one *)
+  | None =>
   match o_copy c with
   | Some (eq, dch, rch, re, fu) =>
     (* equivalent to a plain copy; running it again produces no new change *)
@@ -107,7 +116,7 @@ Definition spec_ok (c : tcase) : bool :=
       end)
   && Z.eqb (o_token c) (c_n c)
   && (if c_full c then true else Z.eqb (o_rerun c) 0)
-  end.
+  end end.
 
 (** [mismatches under PRound; mismatches under PCeilClip; spec failures on I;
      chunk-boundary drift under PRound; under PCeilClip] *)
